@@ -245,4 +245,32 @@ end
 
 end
 
+/-! ### the listener set (`RecordManager.async_updates` / `async_updates_complete`)
+
+`for listener in self.listeners.copy(): listener.async_update_records(...)`: the set is copied before the
+iteration, so whatever the callbacks do to `self.listeners` (add or remove listeners, themselves included)
+changes who is called *next time*, never who is called now. -/
+
+/-- something a callback does to the listener set -/
+inductive ListenerAct where
+  | add (l : Nat)
+  | remove (l : Nat)
+  deriving Repr, DecidableEq
+
+/-- `self.listeners.add` / `self.listeners.remove` (a set) -/
+def applyAct (ls : List Nat) : ListenerAct → List Nat
+  | .add l => if ls.contains l then ls else ls ++ [l]
+  | .remove l => ls.filter (fun x => x != l)
+
+/-- one notification round: every listener of the copy is called once, in the copy's order; `react l` is what
+listener `l`'s callback does to the live set.  Returns (listeners called, live set afterwards). -/
+def notifyRound (ls : List Nat) (react : Nat → List ListenerAct) : List Nat × List Nat :=
+  (ls, ls.foldl (fun live l => (react l).foldl applyAct live) ls)
+
+/-- a datagram with updates: round 1 = `async_update_records`, round 2 = `async_update_records_complete` -/
+def notifyDatagram (ls : List Nat) (react1 react2 : Nat → List ListenerAct) : List Nat × List Nat × List Nat :=
+  let r1 := notifyRound ls react1
+  let r2 := notifyRound r1.2 react2
+  (r1.1, r2.1, r2.2)
+
 end Zc
